@@ -9,6 +9,7 @@ import (
 	"os"
 	"path/filepath"
 	"reflect"
+	"sort"
 	"strconv"
 	"strings"
 
@@ -381,43 +382,118 @@ func c17Wiring(c *Ctx) {
 		}
 	}
 	if fn := c.Fn("C17/R4", pkgWC, "", "computeDomain"); fn != nil {
-		// domain = domainType[:] ++ forkDataRoot[:28]
-		ok := false
+		// domain = domainType[:] ++ forkDataRoot[:28] — decided on a byte-layout model of the returned array: every
+		// copy() into a slice of the 32-byte local with constant bounds contributes segments (destination offset,
+		// length, source, source offset); accepted are `copy(d[:], append(a[:], b[:28]...))` and piecewise copies.
+		type seg struct {
+			off, n int64
+			src    string
+			srcOff int64
+		}
+		var segs []seg
 		detail := ""
+		sliceOf := func(v ssa.Value) (base ssa.Value, lo, hi int64, ok bool) {
+			sl, isS := v.(*ssa.Slice)
+			if !isS {
+				return nil, 0, 0, false
+			}
+			n := int64(-1)
+			t := sl.X.Type()
+			if pt, isP := t.Underlying().(*types.Pointer); isP {
+				t = pt.Elem()
+			}
+			if at, isA := t.Underlying().(*types.Array); isA {
+				n = at.Len()
+			}
+			lo, hi = 0, n
+			if sl.Low != nil {
+				k, okk := ssax.ConstInt(sl.Low)
+				if !okk {
+					return nil, 0, 0, false
+				}
+				lo = k
+			}
+			if sl.High != nil {
+				k, okk := ssax.ConstInt(sl.High)
+				if !okk {
+					return nil, 0, 0, false
+				}
+				hi = k
+			}
+			if hi < 0 {
+				return nil, 0, 0, false
+			}
+			return sl.X, lo, hi, true
+		}
 		ssax.Instrs(fn, func(in ssa.Instruction) {
 			call, isCall := in.(*ssa.Call)
 			if !isCall {
 				return
 			}
-			if b, isB := call.Common().Value.(*ssa.Builtin); isB && b.Name() == "append" {
-				a0, a1 := call.Common().Args[0], call.Common().Args[1]
-				s1, isS := a1.(*ssa.Slice)
-				detail = ssax.Path(a0) + " ++ " + ssax.Path(a1)
-				if isS && s1.Low == nil && s1.High != nil {
-					if k, okk := ssax.ConstInt(s1.High); okk && k == 28 && ssax.Path(a0) == "domainType[:]" && strings.Contains(ssax.Path(s1.X), "computeForkDataRoot(") {
-						ok = true
-					}
+			b, isB := call.Common().Value.(*ssa.Builtin)
+			if !isB || b.Name() != "copy" {
+				return
+			}
+			dbase, dlo, dhi, okd := sliceOf(call.Common().Args[0])
+			if !okd {
+				detail += " copy with non-constant destination bounds;"
+				return
+			}
+			if al, isAl := dbase.(*ssa.Alloc); !isAl || !strings.HasSuffix(al.Type().String(), "[32]byte") {
+				return
+			}
+			var parts []ssa.Value
+			src := call.Common().Args[1]
+			if ac, isAc := src.(*ssa.Call); isAc {
+				if ab, isAb := ac.Common().Value.(*ssa.Builtin); isAb && ab.Name() == "append" {
+					parts = append(parts, ac.Common().Args[0], ac.Common().Args[1])
 				}
 			}
+			if parts == nil {
+				parts = []ssa.Value{src}
+			}
+			off := dlo
+			for _, pt := range parts {
+				pb, plo, phi, okp := sliceOf(pt)
+				if !okp {
+					detail += " source " + ssax.Path(pt) + " has no constant bounds;"
+					return
+				}
+				n := phi - plo
+				if off+n > dhi {
+					n = dhi - off
+				}
+				if n > 0 {
+					segs = append(segs, seg{off, n, ssax.Path(pb), plo})
+				}
+				off += n
+			}
 		})
-		r.Check(ok, "C17/R4", "wc_rotation.computeDomain:concat", "domain = domain_type ‖ fork_data_root[:28]", c.Pos(fn.Pos()), "concatenation is "+detail)
+		sort.Slice(segs, func(a, b int) bool { return segs[a].off < segs[b].off })
+		ok := len(segs) == 2 &&
+			segs[0].off == 0 && segs[0].n == 4 && segs[0].src == "domainType" && segs[0].srcOff == 0 &&
+			segs[1].off == 4 && segs[1].n == 28 && strings.Contains(segs[1].src, "computeForkDataRoot(") && segs[1].srcOff == 0
+		for _, sg := range segs {
+			detail += sprintf(" [%d,%d)<-%s[%d:]", sg.off, sg.off+sg.n, sg.src, sg.srcOff)
+		}
+		r.Check(ok, "C17/R4", "wc_rotation.computeDomain:concat", "domain = domain_type ‖ fork_data_root[:28]", c.Pos(fn.Pos()), "byte layout of the returned domain is"+detail)
 		fdr := ssax.CallsTo(fn, load.Module+"/"+pkgWC+".computeForkDataRoot")
 		if len(fdr) == 1 {
 			a := fdr[0].Common().Args
 			r.Check(strings.Contains(ssax.Path(a[0]), "forkVersion") && strings.Contains(ssax.Path(a[1]), "genesisValidatorsRoot"), "C17/R4", "wc_rotation.computeDomain:fork-data-args", "compute_fork_data_root(fork_version, genesis_validators_root)", c.PosOf(fdr[0]), ssax.Path(a[0])+", "+ssax.Path(a[1]))
 		}
-		// the copy target is the returned domain
-		cp := false
-		ssax.Instrs(fn, func(in ssa.Instruction) {
-			if call, isCall := in.(*ssa.Call); isCall {
-				if b, isB := call.Common().Value.(*ssa.Builtin); isB && b.Name() == "copy" {
-					if strings.Contains(ssax.Path(call.Common().Args[1]), "append(") {
-						cp = true
+		// the laid-out local is what is returned
+		retOK := false
+		for _, ret := range ssax.Returns(fn) {
+			if len(ret.Results) == 2 && ssax.IsNilConst(ssax.Resolve(ret.Results[1])) {
+				if ld, isLd := ret.Results[0].(*ssa.UnOp); isLd {
+					if al, isAl := ld.X.(*ssa.Alloc); isAl && strings.HasSuffix(al.Type().String(), "[32]byte") {
+						retOK = true
 					}
 				}
 			}
-		})
-		r.Check(cp, "C17/R4", "wc_rotation.computeDomain:copy", "the concatenation is what is returned as the 32-byte domain", c.Pos(fn.Pos()), "copy(domain[:], append(...)) not found")
+		}
+		r.Check(retOK, "C17/R4", "wc_rotation.computeDomain:copy", "the concatenation is what is returned as the 32-byte domain", c.Pos(fn.Pos()), "the success return is not the 32-byte local the bytes were copied into")
 	}
 	if fn := c.Fn("C17/R4", pkgWC, "", "computeForkDataRoot"); fn != nil {
 		stores := map[string]string{}
